@@ -138,7 +138,8 @@ class minuit_optimizer(OptimizerMixin):
             # Extra call to hesse() after migrad() is always needed for good error estimates. If you pass a user-provided gradient to MINUIT, convergence is faster.
             minimizer.hesse()
             hess_inv = minimizer.covariance
-            corr = hess_inv.correlation()
+            # there is no covariance when every parameter is held constant
+            corr = hess_inv.correlation() if hess_inv is not None else None
             unc = minimizer.errors
 
         return scipy.optimize.OptimizeResult(
